@@ -675,6 +675,7 @@ package pipeline
 //@     ensures r == up_val(rangeindex)
 
 //@ func (*processor).isMatch
+//@   pure
 //@   ghost m bool = false
 //@   requires 0 <= index && index < len(p.actionInfos)
 //@   ensures p.actionInfos[index].DoIfChecker == nil ==> result == (m != p.actionInfos[index].MatchInvert)
@@ -690,3 +691,20 @@ package pipeline
 //@     pure
 //@   callee NewEventData(r)
 //@     pure
+
+// ---------------------------------------------------------------------------
+// C19: Batch.ForEach calls the callback for exactly the deliverable (non
+// child-parent) events, in index order: in every iteration the callback runs iff
+// the event is not a split parent, on that very event.
+
+//@ func (*Batch).ForEach
+//@   ghost lastIdx int = -1
+//@   loop 1 invariant lastIdx <= rangeindex && rangeindex < len(b.events) && b.events == old(b.events)
+//@   ghost parent bool = false
+//@   loop 1 iter-ensures (lastIdx == rangeindex) == !parent
+//@   callee IsChildParentKind() (r)
+//@     set parent := r
+//@   callee cb(e)
+//@     requires e == event && rangeindex > lastIdx && event.kind != eventKindChildParent
+//@     preserves Batch
+//@     set lastIdx := rangeindex
